@@ -148,15 +148,16 @@ def val(s, i):
 
 
 def recount(segs, check_lx=False):
-    """for a properly nested list: per segment index the multiset (as sorted list) of expected
-    (level, code); and the list expected at cleanup.  HL2 expectations after the first HL2 error
-    in a set are marked by returning 'hl2_open' indexes (not compared)."""
+    """for a properly nested list: per segment index the sorted list of expected (level, code), the
+    list expected at cleanup, and `loose`: indexes whose HL/LX verdicts the statement leaves open
+    (HL/LX outside a transaction set, HL2 after the first HL2 error of a set, LX before any CLM of a set).
+    Written from the C04 statement; does not import pyx12."""
     per = [[] for _ in segs]
     isa_ids = []; gs_ids = []; st_ids = []
     gs_n = 0; st_n = 0; seg_n = 0
-    hl_n = 0; hl_chain = []; lx_n = 0
+    hl_n = 0; hl_chain = []; lx_n = None
     open_ = []
-    hl2_unsure = set()
+    loose = set()
     hl2_err_in_set = False
     in_set = False
     for i, s in enumerate(segs):
@@ -173,7 +174,7 @@ def recount(segs, check_lx=False):
             c = val(s, 2)
             if c in st_ids: e.append(('st', '23'))
             st_ids.append(c); st_n += 1; open_.append(('ST', c)); seg_n = 1
-            hl_n = 0; hl_chain = []; hl2_err_in_set = False; in_set = True
+            hl_n = 0; hl_chain = []; hl2_err_in_set = False; in_set = True; lx_n = None
         elif k == 'SE':
             h = open_.pop()
             if val(s, 2) != h[1]: e.append(('st', '3'))
@@ -189,14 +190,18 @@ def recount(segs, check_lx=False):
             if toint(val(s, 1)) != gs_n: e.append(('isa', '021'))
         else:
             seg_n += 1
+            if not in_set:
+                if k in ('HL', 'LX', 'CLM'):
+                    loose.add(i)
+                continue
             if k == 'HL':
                 hl_n += 1
                 if toint(val(s, 1)) != hl_n: e.append(('seg', 'HL1'))
                 p = val(s, 2)
                 if p not in (None, ''):
-                    pi = toint(p)
                     if hl2_err_in_set:
-                        hl2_unsure.add(i)
+                        loose.add(i)
+                    pi = toint(p)
                     if pi is None or pi not in hl_chain:
                         e.append(('seg', 'HL2'))
                         hl2_err_in_set = True
@@ -207,9 +212,12 @@ def recount(segs, check_lx=False):
             elif check_lx and k == 'CLM':
                 lx_n = 0
             elif check_lx and k == 'LX':
-                lx_n += 1
-                if val(s, 1) != str(lx_n): e.append(('seg', 'LX'))
+                if lx_n is None:
+                    loose.add(i)
+                else:
+                    lx_n += 1
+                    if val(s, 1) != str(lx_n): e.append(('seg', 'LX'))
     end = []
     for (k, c) in open_:
         end.append({'ISA': ('isa', '023'), 'GS': ('gs', '3'), 'ST': ('st', '2')}[k])
-    return per, end, hl2_unsure
+    return per, end, loose
